@@ -5,6 +5,7 @@ import (
 	"os"
 	"regexp"
 	"runtime"
+	"strings"
 	"time"
 
 	"verif/harness/guard"
@@ -12,12 +13,41 @@ import (
 
 var rangeRe = regexp.MustCompile(`[A-Za-z0-9."] ?- ?[A-Za-z0-9."]+ ->`)
 
-// waitGoroutines polls until the number of goroutines is back at (or
-// below) base.  A finished goroutine may need a few scheduler rounds to
-// disappear, a leaked one never does.  The verdict "leak" is given only
-// after at least 2 s of wall-clock time *and* at least 500 polling rounds
-// that each yield the processor, so that a process that was frozen for a
-// while (loaded machine, CPU quota) does not produce a false alarm.
+// libraryGoroutines returns the stacks of all goroutines other than the
+// calling one that run, or were started by, code of the library.
+func libraryGoroutines() []string {
+	buf := make([]byte, 1<<20)
+	buf = buf[:runtime.Stack(buf, true)]
+	blocks := strings.Split(string(buf), "\n\n")
+	var res []string
+	for i, b := range blocks {
+		if i == 0 { // the calling goroutine comes first
+			continue
+		}
+		if strings.Contains(b, "seehuhn.de/go/sfnt") {
+			res = append(res, b)
+		}
+	}
+	return res
+}
+
+// leakedSoFar counts library goroutines that were already reported (they
+// never go away; rapid keeps running cases while it shrinks).
+var leakedSoFar int
+
+// waitGoroutines decides whether the call that just returned left a
+// goroutine of the library behind.  base is runtime.NumGoroutine() from
+// before the call.  Fast path: the count is back at (or below) base.
+// Otherwise the goroutine dump decides: the case passes as soon as no
+// goroutine with a library frame (other than ones reported earlier) is left;
+// a finished goroutine may need a few scheduler rounds to disappear, a leaked
+// one never does.  The verdict "leak" is given only after at least 2 s of
+// wall-clock time *and* at least 550 polling rounds that each yield the
+// processor, so that a process that was frozen for a while (loaded machine,
+// paused VM) does not produce a false alarm.  The dump, not the counter, has
+// the last word because NumGoroutine is computed without locks and was seen
+// to under-report for an instant while other goroutines exit (a baseline of
+// 2 with 5 goroutines alive), which would turn into a false leak report.
 func waitGoroutines(base int) error {
 	start := time.Now()
 	for i := 0; ; i++ {
@@ -25,20 +55,26 @@ func waitGoroutines(base int) error {
 		if n <= base {
 			return nil
 		}
-		if i >= 550 && time.Since(start) >= 2*time.Second {
-			buf := make([]byte, 1<<16)
-			buf = buf[:runtime.Stack(buf, true)]
-			msg := fmt.Sprintf("goroutine leak: %d goroutines before the call, %d still running %v (%d polls) after it returned",
-				base, n, time.Since(start).Round(time.Millisecond), i)
-			return fmt.Errorf("%s\n%s\n%s", msg, buf, msg)
-		}
 		switch {
 		case i < 50:
 			runtime.Gosched()
+			continue
 		case i < 550:
 			time.Sleep(time.Millisecond)
+			if i%50 != 0 {
+				continue
+			}
 		default:
 			time.Sleep(10 * time.Millisecond)
+		}
+		lib := libraryGoroutines()
+		if len(lib) <= leakedSoFar {
+			return nil
+		}
+		if i >= 550 && time.Since(start) >= 2*time.Second {
+			leakedSoFar = len(lib)
+			return fmt.Errorf("goroutine leak: %d goroutines before the call, %d still running %v (%d polls) after it returned; goroutines of the library still alive:\n%s",
+				base, n, time.Since(start).Round(time.Millisecond), i, strings.Join(lib, "\n\n"))
 		}
 	}
 }
